@@ -227,7 +227,7 @@ func HeaderSweep(seedName string, valid []byte, from, n int) []Mut {
 			}
 			d := clone(valid)
 			d[i] = nv.v
-			out = append(out, Mut{Label: fmt.Sprintf("%s/byte@%d=%s", seedName, i, nv.name), Class: "bytesweep|" + nv.name, Data: d})
+			out = append(out, Mut{Label: fmt.Sprintf("%s/byte@%d=%s", seedName, i, nv.name), Class: fmt.Sprintf("byte@%d|%s", i, nv.name), Data: d})
 		}
 	}
 	return out
@@ -244,7 +244,7 @@ func BitFlips(seedName string, valid []byte, rng *rand.Rand, n int) []Mut {
 		bit := uint(rng.Intn(8))
 		d := clone(valid)
 		d[p] ^= 1 << bit
-		out = append(out, Mut{Label: fmt.Sprintf("%s/bitflip@%d.%d", seedName, p, bit), Class: "bitflip|1", Data: d})
+		out = append(out, Mut{Label: fmt.Sprintf("%s/bitflip@%d.%d", seedName, p, bit), Class: fmt.Sprintf("bitflip@%d|1bit", p), Data: d})
 	}
 	for i := 0; i < n/4; i++ {
 		d := clone(valid)
@@ -252,7 +252,7 @@ func BitFlips(seedName string, valid []byte, rng *rand.Rand, n int) []Mut {
 		for j := 0; j < k; j++ {
 			d[rng.Intn(len(d))] = byte(rng.Intn(256))
 		}
-		out = append(out, Mut{Label: fmt.Sprintf("%s/randbytes-x%d-#%d", seedName, k, i), Class: "bitflip|multi", Data: d})
+		out = append(out, Mut{Label: fmt.Sprintf("%s/randbytes-x%d-#%d", seedName, k, i), Class: fmt.Sprintf("randbytes#%d|x%d", i, k), Data: d})
 	}
 	return out
 }
@@ -280,9 +280,9 @@ func RandomBlobs(name string, prefix []byte, rng *rand.Rand, perLen int) []Mut {
 					}
 				}
 			}
-			out = append(out, Mut{Label: fmt.Sprintf("%s/random-len%d-#%d", name, l, k), Class: "random|raw", Data: d})
+			out = append(out, Mut{Label: fmt.Sprintf("%s/random-len%d-#%d", name, l, k), Class: fmt.Sprintf("random-len%d|raw", l), Data: d})
 			if len(prefix) > 0 {
-				out = append(out, Mut{Label: fmt.Sprintf("%s/magic+random-len%d-#%d", name, l, k), Class: "random|after-magic", Data: append(clone(prefix), d...)})
+				out = append(out, Mut{Label: fmt.Sprintf("%s/magic+random-len%d-#%d", name, l, k), Class: fmt.Sprintf("random-len%d|after-magic", l), Data: append(clone(prefix), d...)})
 			}
 		}
 	}
@@ -293,13 +293,12 @@ func RandomBlobs(name string, prefix []byte, rng *rand.Rand, perLen int) []Mut {
 // little-endian u64 length prefix of a bincode/borsh stream without knowing the schema.
 func SlidingU64(seedName string, valid []byte, step int) []Mut {
 	var out []Mut
-	vals := []namedVal{{"0", 0}, {"1", 1}, {"2^31-1", 1<<31 - 1}, {"2^31", 1 << 31}, {"2^32", 1 << 32}, {"2^40", 1 << 40}, {"2^63-1", 1<<63 - 1}, {"2^63", 1 << 63}, {"2^64-1", ^uint64(0)},
-		{"len", uint64(len(valid))}, {"2^20", 1 << 20}, {"2^27", 1 << 27}, {"2^24", 1 << 24}}
+	vals := []namedVal{{"0", 0}, {"1", 1}, {"len", uint64(len(valid))}, {"2^20", 1 << 20}, {"2^24", 1 << 24}, {"2^31-1", 1<<31 - 1}, {"2^31", 1 << 31}, {"2^63", 1 << 63}, {"2^64-1", ^uint64(0)}}
 	for off := 0; off+8 <= len(valid); off += step {
 		for _, nv := range vals {
 			d := clone(valid)
 			binary.LittleEndian.PutUint64(d[off:], nv.v)
-			out = append(out, Mut{Label: fmt.Sprintf("%s/u64@%d=%s", seedName, off, nv.name), Class: "u64le|" + nv.name, Data: d})
+			out = append(out, Mut{Label: fmt.Sprintf("%s/u64@%d=%s", seedName, off, nv.name), Class: fmt.Sprintf("u64le@%d|%s", off, nv.name), Data: d})
 		}
 	}
 	return out
@@ -313,7 +312,7 @@ func SlidingU32(seedName string, valid []byte, step int) []Mut {
 		for _, nv := range vals {
 			d := clone(valid)
 			binary.LittleEndian.PutUint32(d[off:], uint32(nv.v))
-			out = append(out, Mut{Label: fmt.Sprintf("%s/u32@%d=%s", seedName, off, nv.name), Class: "u32le|" + nv.name, Data: d})
+			out = append(out, Mut{Label: fmt.Sprintf("%s/u32@%d=%s", seedName, off, nv.name), Class: fmt.Sprintf("u32le@%d|%s", off, nv.name), Data: d})
 		}
 	}
 	return out
